@@ -79,6 +79,7 @@ def generate(seed, tier="quick"):
         f = prog["files"][-1]
         t = f["tests"][-1] if xr.random() < 0.6 else xr.choice(f["tests"])
         t["xfail"] = True  # the last test of the session, or some test in between
+    W.sprinkle_uni(prog, sub(seed, "uni"), 0.08)
     return {"program": prog, "steps": steps, "driver": driver, "fmt": draw_fmt(sub(seed, "fmt")),
             "profile": {"scalars": prof.scalars, "containers": prof.containers, "calls": prof.calls, "special": prof.special,
                         "alphabet": prof.alphabet, "max_depth": prof.max_depth, "max_len": prof.max_len, "str_len": prof.str_len},
